@@ -65,7 +65,7 @@ def run(tier: str, seed: int) -> int:
         if N ** D > 3000:
             continue
         for lab, params, (rname, kw) in non_amplifying_variants(cls, mix, D, rng):
-            L = float(rng.choice([1.0, 2 * np.pi, 11.0]))
+            L = float(rng.choice([1.0, 2 * np.pi, 11.0, 600.0, 5.0e4]))          # small and very large boxes: decay rates down to 1e-16 per unit time
             dt = float(rng.choice([1e-3, 0.3, 50.0, 1e6]))
             kwj = {k: (jnp.asarray(v) if isinstance(v, np.ndarray) else v) for k, v in kw.items()}
             st = registry.make(rname, D, N, L=L, dt=dt, **kwj)
@@ -81,9 +81,15 @@ def run(tier: str, seed: int) -> int:
                 run_.violation(dict(key, what="|multiplier| > 1"), {"index": list(idx), "modulus": float(np.abs(mult).max()), "L": L, "dt": dt})
             if cls in ("Advection", "Dispersion") and maxabs(np.abs(mult) - 1) > 1e-12:
                 run_.violation(dict(key, what="|multiplier| != 1 for a non-dissipative class"), {"dev": maxabs(np.abs(mult) - 1)})
+            # the modulus is exp(dt Re lambda) - whatever the size of the rates (tiny rates times a huge dt still damp)
+            zre = dt * lam.real
+            okf = zre > -700
+            if np.any(np.abs(np.abs(mult[okf]) - np.exp(zre[okf])) > 1e-12 * (1 + np.abs(zre[okf]))):
+                run_.violation(dict(key, what="|multiplier| != exp(dt Re lambda)"), {"L": L, "dt": dt, "dev": float(np.max(np.abs(np.abs(mult[okf]) - np.exp(zre[okf]))))})
             if cls in ("Diffusion", "HyperDiffusion") and dt >= 1e-3:
                 nz = np.ones(wshape(D, N), bool)
                 nz[(0,) * D] = False
+                nz &= (-zre > 1e-10)                 # modes whose damping is representable next to 1.0
                 if np.any(np.abs(mult[nz]) >= 1.0):
                     run_.violation(dict(key, what="a non-constant mode is not damped"), {"L": L, "dt": dt})
             # (ii) arbitrary real states: ||out|| <= ||in||, equality where the specification says so
